@@ -232,6 +232,9 @@ def site_bodies():
         "modify-in-if": [("if", ("bool", True), [asg("cv", I(3), None, ("modify",))], None), ("return", cv)],
         "modify-in-loop": [("from", I(0), I(2), False, None, None, [asg("cv", ("bin", "+", cv, I(1)), None, ("modify",))]), ("return", cv)],
         "local-shadow": [asg("cv", I(40)), ("return", cv)],
+        "self-assign": [asg("cv", ("bin", "+", cv, I(1))), ("return", cv)],
+        "self-assign-in-if": [("if", ("bool", True), [asg("cv", ("bin", "*", cv, I(2))), ("print", cv)], None), ("return", cv)],
+        "self-opassign": [asg("t", I(0)), asg("t", cv), ("opassign", V("t"), "+=", cv), ("return", V("t"))],
         "selfcall-arg": [("return", cv)],
     }
     return B
@@ -249,7 +252,14 @@ def site_program(site, nesting, owner_kind):
     else:
         make = [asg("mk", fn([], f"fn() -> {FN0}", [("return", fn([], FN0, [("return", clo)]))])),
                 asg("mk2", call("mk")), asg("cl", call("mk2"))]
-    use = [("print", call("cl")), ("print", V("cv")), asg("cv", I(2)), ("print", call("cl")), ("print", V("cv"))]
+    use = [("print", call("cl")), ("print", V("cv")), asg("cv", I(2)), ("print", call("cl")), ("print", V("cv")),
+           ("print", ("method", V("cl"), "is_closure", []))]
+    if owner_kind == "escaped":
+        # the closure outlives the execution of its owner: it is returned and called after the owner has returned
+        owner = fn([("p", "int")], FN0, [asg("cv", V("p"))] + make + [("return", V("cl"))])
+        return [asg("own", owner), asg("e1", call("own", I(1))), ("print", call("e1")), ("print", call("e1")),
+                asg("e2", call("own", I(5))), ("print", call("e2")), ("print", call("e1")),
+                ("print", ("method", V("e1"), "is_closure", [])), ("print", ("str", "end"))]
     if owner_kind == "module":
         return [asg("cv", I(1))] + make + use + [("print", ("str", "end"))]
     owner = fn([("p", "int")], "int", [asg("cv", V("p"))] + make + use + [("return", V("cv"))])
@@ -270,13 +280,14 @@ class C07(EHistCheck):
             "closures; counter factory with two instances and re-creation; three nesting levels with a closure created by a closure; closures "
             "created in a method, stored in a list and passed as arguments; the shadowing family), de-duplicated on the values of the "
             "template's observer expressions, every transition replayed on the real CLI; (b) capture-site matrix: the captured variable is "
-            "used only inside one of 33 AST node kinds, with the closure created 1-3 levels below the owner (module, function, method), the "
-            "owner assigning the variable after the closure was created.")
+            "used only inside one of 36 AST node kinds, with the closure created 1-3 levels below the owner (module, function, method, or "
+            "escaped: returned and called after the owner has returned), the owner assigning the variable after the closure was created; "
+            "is_closure() is observed in every case.")
     assumptions = ["the reference interpreter with explicit cells is the model", "functions are never printed"]
 
     def layers(self, tier):
         ls = self.bfs(tier)
-        sites = [("site", s, n, o) for s in site_bodies() for n in (1, 2, 3) for o in ("module", "function", "method")]
+        sites = [("site", s, n, o) for s in site_bodies() for n in (1, 2, 3) for o in ("module", "function", "method", "escaped")]
         return [("capture-site-matrix", sites)] + ls
 
     def describe(self, case):
